@@ -144,3 +144,5 @@ macro_rules! api_impl {
 }
 
 api_impl!(cur, preflate_rs);
+api_impl!(ref0, preflate_ref0);
+api_impl!(ref1, preflate_ref1);
